@@ -18,7 +18,7 @@ from harness.props import compare_common as cc
 MANIFEST = dict(
     category="proof",
     technique="Lean 4 theorems over a hand-written model of the compare engine + differential correspondence with the implementation",
-    text='Lean theorems for every option record, flag record and both entry points: C10_xpath_match_spec / _zero / _pos / C10_str_vs_tuple (a pattern matches iff the parts after its last empty part equal the last parts of the path case-insensitively with * for one part; the result is the 1-based index of the first matching pattern; a str argument equals the one-element tuple); C10_exclude (the run with exclude_xpaths reports exactly the entries of the unrestricted run for which no tested prefix - one ending at a dictionary key, or the path of a list - matches, one line per remaining entry: both inclusions); C10_compare_only (entries located at dictionary entries are kept iff their path matches, entries located at list items are untouched). Transform (LeafTransform: every function is the identity on containers, maps scalars to scalars and None to a scalar or None): C10_transform_partial / C10_transform_verdict - for direct_compare, every other option and flag record, the run with transform on (a, b) and the run without it on the mapped trees (mapT) raise the same exception or return results of the same shape (line count, paths and pair kinds of the four lists), both directions; C10_transform_keyed_records / C10_transform_keyed_records_verdict (Proofs/CompareTransformKeyed.lean) - the same for the keyed/default entry point compare() WITHOUT a composite key on trees all of whose list items are records (every item of every list at every depth is a dictionary: then the n-th record meets the n-th record and the str()-keying of untransformed values plays no role); KEPT AND REFUTED: C10_transform_stmt (both entry points, all trees) - C10_transform_keyed_cex (known finding C10-a: in keyed mode non-record list items are paired by str() of the untransformed value); C10_transform_keyed_ck_cex - with a composite key the keyed statement fails even on lists of records (the key is built from the transformed field, which must be a str: TypeError for the identity on an int key field). The model (lean/N0Verif/Model/Compare.lean) follows n0dict.compare/direct_compare, n0list.compare/direct_compare, xpath_match, generate_composite_keys, update_extend and the flag machine branch by branch for the code WITH fix patches C07-a, C08-a, C09-a applied; it is compared with the implementation on generated pairs of trees (verdict, entry sets with rendered paths and values, number of prose lines, exception class) and the statement itself is executed on the implementation with Python-side oracles.',
+    text='Lean theorems for every option record, flag record and both entry points: C10_xpath_match_spec / _zero / _pos / C10_str_vs_tuple (a pattern matches iff the parts after its last empty part equal the last parts of the path case-insensitively with * for one part; the result is the 1-based index of the first matching pattern; a str argument equals the one-element tuple); C10_exclude (the run with exclude_xpaths reports exactly the entries of the unrestricted run for which no tested prefix - one ending at a dictionary key, or the path of a list - matches, one line per remaining entry: both inclusions); C10_compare_only (entries located at dictionary entries are kept iff their path matches, entries located at list items are untouched). Transform (LeafTransform: every function is the identity on containers, maps scalars to scalars and None to a scalar or None): C10_transform_partial / C10_transform_verdict - for direct_compare, every other option and flag record, the run with transform on (a, b) and the run without it on the mapped trees (mapT) raise the same exception or return results of the same shape (line count, paths and pair kinds of the four lists), both directions; C10_transform_keyed / C10_transform_keyed_verdict (Proofs/CompareTransformKeyed.lean) - the same for the keyed/default entry point compare() WITHOUT a composite key on trees every list of which, at every depth, holds records only or leaves only: the n-th record meets the n-th record, and (fix C10-a) a leaf is keyed by the JSON text of its TRANSFORMED value, the key it has in the mapped tree, so both runs pair the same positions ([i]<>[j] included) and two leaves meet iff their transformed values have the same type and value (C10_transform_keyed_example: {"a":["A"]} vs {"a":["a"]} under ("//a", lower) reports nothing); KEPT AND REFUTED: C10_transform_stmt (both entry points, all trees) - C10_transform_refuted from C10_transform_keyed_nested_cex (known finding C10-b, what is left of C10-a: a list that is an item of a list is keyed by the JSON text of its UNtransformed leaves; needs a pattern naming the index of the inner list such as //a[0]); C10_transform_keyed_ck_cex - with a composite key the keyed statement fails even on lists of records (the key is built from the transformed field, which must be a str: TypeError for the identity on an int key field). The model (lean/N0Verif/Model/Compare.lean) follows n0dict.compare/direct_compare, n0list.compare/direct_compare, xpath_match, generate_composite_keys, update_extend and the flag machine branch by branch for the code WITH fix patches C07-a, C08-a, C09-a, C07-b, C07-c, C09-b, C10-a applied; it is compared with the implementation on generated pairs of trees (verdict, entry sets with rendered paths and values, number of prose lines, exception class) and the statement itself is executed on the implementation with Python-side oracles.',
     note='str.lower() is modelled for ASCII (patterns/keys) and Latin-1 (transform lower); transform functions come from the family identity/lower/constant/numeric truncation (float lexemes of the form [-]d+.d+).',
     design_ref='5/C10',
 )
@@ -170,9 +170,10 @@ def check_match_spec(c):
     return None
 
 
-def list_transform_class(c):
-    """class C10-a: keyed compare, a transform pattern matches the path of a list that holds a scalar item
-    the function changes (list items are keyed by the str() of the untransformed value)"""
+def nested_list_transform_class(c):
+    """class C10-b (what is left of C10-a after its fix): keyed compare, and a transform changes a leaf INSIDE A LIST
+    THAT IS AN ITEM OF A LIST (the outer list keys the inner one by the JSON text of its untransformed leaves; the
+    pattern has to match the inner list's own path, i.e. to name its index)"""
     if c.get("mode") != "k" or not c.get("tr"):
         return False
 
@@ -180,20 +181,16 @@ def list_transform_class(c):
         if isinstance(t, dict):
             return any(walk(v, path + "/" + k) for k, v in t.items())
         if isinstance(t, list):
-            f = first_tr(c["tr"], path)
             for i, v in enumerate(t):
                 sub = "%s[%d]" % (path, i)
-                if isinstance(v, dict):
-                    if walk(v, sub):
+                if isinstance(v, list):
+                    try:
+                        w = map_tr(v, c["tr"], sub)
+                    except Exception:
                         return True
-                    continue
-                try:
-                    w = map_tr(v, c["tr"], sub) if isinstance(v, list) else f(v)
-                except Exception:
-                    return True
-                if type(w) is not type(v) or enc_val(cc.build(w) if isinstance(w, list) else w) != enc_val(cc.build(v) if isinstance(v, list) else v):
-                    return True
-                if isinstance(v, list) and walk(v, sub):
+                    if enc_val(cc.build(w)) != enc_val(cc.build(v)):
+                        return True
+                if isinstance(v, (dict, list)) and walk(v, sub):
                     return True
         return False
 
@@ -201,8 +198,8 @@ def list_transform_class(c):
 
 
 def known_class(c, detail=None):
-    if detail and ("only_with_transform" in detail or "status" in detail) and list_transform_class(c):
-        return "C10-a"
+    if detail and ("only_with_transform" in detail or "status" in detail) and nested_list_transform_class(c):
+        return "C10-b"
     return None
 
 
@@ -305,7 +302,7 @@ def run(ctx):
     rng = ctx.rng("opts")
     cases = []
     for i in range(n):
-        c = cc.gen_case(rng, depth, opts=False, collide=(i % 6 == 0))
+        c = cc.gen_case(rng, depth, opts=False, collide=(i % 2 == 0))
         a, b = c["a"], c["b"]
         which = i % 4
         if which in (0, 3):
@@ -327,6 +324,36 @@ def run(ctx):
     ctx.evaluate("exclude", [c for c in cases if c["excl"] != []], check_exclude, in_known=known_class, nontrivial=nt)
     ctx.evaluate("only", [c for c in cases if c["only"] != []], check_only, in_known=known_class, nontrivial=nt)
     ctx.evaluate("transform", [c for c in cases if c["tr"]], check_transform, in_known=known_class, nontrivial=nt)
+    # fix C10-a on purpose: keyed compare of lists of scalar items under a transform registered for the list
+    # (items that differ only by what the function removes must meet; the others are unique on their side)
+    rng = ctx.rng("scalar-items")
+    tcases = []
+    pools = {"lower": ["a", "A", "b", "B", "Ab", "aB", "x y", "X Y", "1", 1, None], "trunc": [1.0, 1.5, 1, 2.25, 2, 2.0, "1", "1.5", None],
+             "const": ["a", "b", 1, 2.5, None, True], "id": ["a", "A", 1, "1", 1.0, True, None, ""]}
+    for _ in range(n // 5):
+        name = rng.choice(cc.TR_NAMES)
+        xs = [rng.choice(pools[name]) for _ in range(rng.choice([1, 2, 3, 4]))]
+        ys = [rng.choice(pools[name]) if rng.random() < 0.3 else leaf_edits(rng, x) for x in xs]
+        rng.shuffle(ys)
+        if rng.random() < 0.3:
+            ys.append(rng.choice(pools[name]))
+        key = rng.choice(["a", "Parm", "w"])
+        wrap = rng.choice([lambda l: {key: l}, lambda l: {"k": {key: l}, "f": 1}, lambda l: {key: l, "b": [{"v": 1}]}])
+        tcases.append({"mode": rng.choice(["k", "k", "d"]), "setters": cc.gen_setters(rng), "ck": [], "only": [], "excl": [],
+                       "tr": [[rng.choice(["//" + key, key, "*/" + key, cc.mixcase(rng, "//" + key)]), name]], "a": wrap(xs), "b": wrap(ys), "_kind": "scalar-items"})
+    ctx.correspond("cmp.run/scalar-items", tcases, cc.corr_line, cc.corr_impl)
+    ctx.evaluate("transform/scalar-items", tcases, check_transform, in_known=known_class)
+    ctx.extra["scalar_items_paired_across_positions"] = sum(
+        1 for c in tcases[:1500] if c["mode"] == "k" and (lambda r: r.status == "ok" and len(r.res["differences"]) < len(c["a"]) + len(c["b"]))(cc.run_impl(c)))
+    # the residual class C10-b (known finding) on purpose: a transformed leaf inside a list nested in a list
+    ncases = []
+    for _ in range(ctx.budget(60, 400)):
+        inner = [rng.choice(["A", "b", "Ab", 1, 2.5]) for _ in range(rng.choice([1, 2]))]
+        other = [leaf_edits(rng, x) for x in inner]
+        ncases.append({"mode": "k", "setters": [], "ck": [], "only": [], "excl": [], "tr": [["//a[0]", rng.choice(["lower", "trunc", "const"])]],
+                       "a": {"a": [inner]}, "b": {"a": [other]}, "_kind": "nested"})
+    ctx.correspond("cmp.run/nested-items", ncases, cc.corr_line, cc.corr_impl)
+    ctx.evaluate("transform/nested-items", ncases, check_transform, in_known=known_class)
     # how often an option really changed the report (non-vacuity of the filter equations)
     eff = {"excl": 0, "only": 0, "tr": 0}
     for c in cases[: min(len(cases), 2000)]:
@@ -339,6 +366,7 @@ def run(ctx):
     ctx.extra["assumptions"] = [
         "patterns and key names are ASCII (str.lower() is modelled for ASCII letters)",
         "transform functions come from the family identity / lower / constant / numeric truncation, all identities on containers (LeafTransform)",
-        "trees are converted recursively; the model follows the code with fix patches C07-a, C08-a, C09-a applied",
+        "trees are converted recursively; the model follows the code with fix patches C07-a, C08-a, C09-a, C07-b, C07-c, C09-b, C10-a applied",
+        "keyed mode: transform patterns do not name list indexes (the index part of a path depends on the pairing); the one exception is the stream of the known finding C10-b",
     ]
     ctx.extra["trusted_base"] = ["Python-side readings excluded_by / kept_by_only / map_tr / spec_match of harness/props/c10.py and compare_common.py"]
